@@ -127,6 +127,17 @@ func checkC06Model(r *evid.Run, pool *wproto.Pool, cfg string, timeout time.Dura
 			if d := diffSnap(want, o.after); o.rp.Class != "ok" || d != "" {
 				r.Mismatch("mkdir-"+call.Route+":not-exactly-the-tree", fmt.Sprintf("%s: class=%s err=%q diff: %s", callString(s, c), o.rp.Class, o.rp.Err, d), rec(s, c, o, false, d))
 			}
+			// the massive option is a mode of the same Mkdir: a call that succeeds leaves exactly the tree as well
+			// (every other state; which root fails first when some do is C10's)
+			if s.N%2 == 0 {
+				if om, err := runFsCall(pool, s, c, true, false); err == nil {
+					r.Count("real_calls", 1)
+					wantM := expectSnapshot(s.Post, om.before, c)
+					if d := diffSnap(wantM, om.after); om.rp.Class != "ok" || d != "" {
+						r.Mismatch("mkdir-"+call.Route+"/massive:not-exactly-the-tree", fmt.Sprintf("%s: class=%s err=%q diff: %s", callString(s, c), om.rp.Class, om.rp.Err, d), rec(s, c, om, true, d))
+					}
+				}
+			}
 		case "exists":
 			d := diffSnap(o.before, o.after)
 			// "exists" in the model also covers a Stat that fails (over-long name, a file on the way): the
